@@ -10,10 +10,35 @@
 //! per-case watchdog, so that an allocation abort (SIGABRT) is reported as `abort` and a runaway loop
 //! as `timeout` instead of killing the harness; all other `de` lines run in-process under
 //! `catch_unwind`.  The limits are mirrored in DrvC18.lean (`limits`).
+//!
+//! Types of `ark-poly` (derived impls; `GeneralEvaluationDomain` hand-written) over a prime field carry the
+//! field and the kind of the type in the type token: `P<p hex>.<kind>.<ty>` with the leaf `fp` (see
+//! `Ark.Serial.Poly` in Serial.lean); tag `w` = a byte string that decodes to a value violating an
+//! invariant of its type (inconsistent domain fields, trailing zero coefficient, …).
+//! Further ops (every `<ty>` may be a `P…` token):
+//!   C18 chk <ty> <val>                        => ok | err:<class> | panic        `Valid::check` called directly
+//!   C18 bchk <ty> [<val>,…]                   => ok | err:<class> | panic        `Valid::batch_check` called directly
+//!   C18 hash <c|u> <ty> <val>                 => <32 bytes hex>                  `CanonicalSerializeHashExt::{hash, hash_uncompressed}::<Sha256>`
+//!   C18 cser <ty> <val>                       => <hex> <size> <hex> <size>       `serialize_compressed`, `compressed_size`, `serialize_uncompressed`, `uncompressed_size`
+//!   C18 cde <tag> <c|u><y|n> <ty> <hex>       => as `de`                         `deserialize_{compressed,uncompressed}[_unchecked]`
+//!   C18 wfail <e|z> <c|u> <ty> <val> <k>      => ok <hex> | err:<class> <hex>    writer that takes k bytes, then fails (e: Err, z: Ok(0)); <hex> = what it received
+//!   C18 rfail <e|i> <v|i> <c|u><y|n> <ty> <hex> <k> <chunk> => as `de`                reader: k bytes in chunks, then Err (e) / all bytes with `Interrupted` before every read (i)
+//!   C18 tovec <ty> <val>                      => <hex>                           `serialize_to_vec![a, b, …]` on the components of a tuple value
+//!   C18 bbs <bits>                            => <bits'> <bytes> <bytes>         `buffer_bit_byte_size`, `buffer_byte_size`
+//!   C18 puse <what> <P…ty> <hex>              => ok:<…> | panic | err:<class>    a public method called on a value deserialised (Validate::Yes) from <hex>
 #![allow(dead_code, deprecated)]
+use ark_ff::{BigInt, CubicExtConfig, CubicExtField, FftField, Field, Fp, FpConfig, MontBackend, MontConfig, PrimeField, QuadExtConfig, QuadExtField};
+use ark_poly::{
+    multivariate::{SparsePolynomial as MvSparse, SparseTerm, Term},
+    univariate::{DensePolynomial, SparsePolynomial as UvSparse},
+    DenseMVPolynomial, DenseMultilinearExtension, EvaluationDomain, Evaluations, GeneralEvaluationDomain,
+    MixedRadixEvaluationDomain, MultilinearExtension, Polynomial, Radix2EvaluationDomain, SparseMultilinearExtension,
+};
 use ark_serialize::*;
 use arkharness::util::*;
+use arkharness::zoo::{FDM61, FDP64m59, FDT13, FDT257};
 use num_bigint::BigUint;
+use sha2::Sha256;
 use std::borrow::Cow;
 use std::collections::{BTreeMap, BTreeSet, LinkedList, VecDeque};
 use std::io::{BufRead, BufReader, Write as IoWrite};
@@ -448,12 +473,320 @@ impl Tv for Deep {
     fn scan(r: &mut &[u8], c: Compress) -> Result<(), bool> { <(Named, Vec<TupS>, BTreeMap<u8, Gen2<u8, bool>>, (CompressedUnchecked<Ml>, [Ml; 2]))>::scan(r, c) }
 }
 
+// ------------------------------------------------------------------ prime fields, extensions, BigInt
+/// F_401: 400 = 2^4 · 5^2 (toy field with a mixed-radix domain)
+#[derive(MontConfig)]
+#[modulus = "401"]
+#[generator = "3"]
+#[small_subgroup_base = "5"]
+#[small_subgroup_power = "2"]
+pub struct C401;
+pub type M401 = Fp<MontBackend<C401, 1>, 1>;
+
+fn is_zero_v(v: &V) -> bool {
+    match v { V::Big(b) => b.bits() == 0, V::I(i) => *i == 0, V::Seq(xs) => xs.iter().all(is_zero_v), _ => false }
+}
+fn v_usize(v: &V) -> usize { match v { V::I(i) => *i as usize, V::Big(b) => b.iter_u64_digits().next().unwrap_or(0) as usize, _ => panic!("harness: usize") } }
+impl<P: FpConfig<N>, const N: usize> Tv for Fp<P, N> {
+    fn ty() -> String { "fp".into() }
+    fn gen(g: &mut Gen, _d: u32) -> V {
+        let p: BigUint = Self::MODULUS.into();
+        let b = match g.rng.below(9) {
+            0 => BigUint::from(0u8), 1 => BigUint::from(1u8), 2 => &p - 1u8, 3 => BigUint::from(2u8) % &p, 4 => (&p - 1u8) / 2u8,
+            _ => { let n = (Self::MODULUS_BIT_SIZE as usize + 7) / 8 + 8; BigUint::from_bytes_le(&(0..n).map(|_| g.rng.next() as u8).collect::<Vec<_>>()) % &p },
+        };
+        V::Big(b)
+    }
+    fn build(v: &V) -> Self { match v { V::Big(b) => Self::from(b.clone()), V::I(i) => Self::from(BigUint::from(*i as u128)), _ => panic!("harness: fp") } }
+    fn show(&self) -> V { V::Big(self.into_bigint().into()) }
+    fn scan(r: &mut &[u8], _c: Compress) -> Result<(), bool> { take(r, (Self::MODULUS_BIT_SIZE as usize + 7) / 8)?; Ok(()) }
+}
+impl<P: QuadExtConfig> Tv for QuadExtField<P> where P::BaseField: Tv {
+    fn ty() -> String { format!("tup({},{})", P::BaseField::ty(), P::BaseField::ty()) }
+    fn gen(g: &mut Gen, d: u32) -> V { V::Seq(vec![P::BaseField::gen(g, d + 1), P::BaseField::gen(g, d + 1)]) }
+    fn build(v: &V) -> Self { let s = seq(v); QuadExtField::new(Tv::build(&s[0]), Tv::build(&s[1])) }
+    fn show(&self) -> V { V::Seq(vec![self.c0.show(), self.c1.show()]) }
+    fn scan(r: &mut &[u8], c: Compress) -> Result<(), bool> { P::BaseField::scan(r, c)?; P::BaseField::scan(r, c) }
+}
+impl<P: CubicExtConfig> Tv for CubicExtField<P> where P::BaseField: Tv {
+    fn ty() -> String { format!("tup({},{},{})", P::BaseField::ty(), P::BaseField::ty(), P::BaseField::ty()) }
+    fn gen(g: &mut Gen, d: u32) -> V { V::Seq((0..3).map(|_| P::BaseField::gen(g, d + 1)).collect()) }
+    fn build(v: &V) -> Self { let s = seq(v); CubicExtField::new(Tv::build(&s[0]), Tv::build(&s[1]), Tv::build(&s[2])) }
+    fn show(&self) -> V { V::Seq(vec![self.c0.show(), self.c1.show(), self.c2.show()]) }
+    fn scan(r: &mut &[u8], c: Compress) -> Result<(), bool> { for _ in 0..3 { P::BaseField::scan(r, c)?; } Ok(()) }
+}
+/// `BigInt<N>`: (de)serialised through its limb array `[u64; N]`
+impl<const N: usize> Tv for BigInt<N> {
+    fn ty() -> String { <[u64; N]>::ty() }
+    fn gen(g: &mut Gen, d: u32) -> V { <[u64; N]>::gen(g, d) }
+    fn build(v: &V) -> Self { BigInt(<[u64; N]>::build(v)) }
+    fn show(&self) -> V { self.0.show() }
+    fn scan(r: &mut &[u8], c: Compress) -> Result<(), bool> { <[u64; N]>::scan(r, c) }
+}
+
+// ------------------------------------------------------------------ ark-poly types
+impl<F: Tv + Field> Tv for DensePolynomial<F> {
+    fn ty() -> String { format!("st({})", <Vec<F>>::ty()) }
+    fn gen(g: &mut Gen, d: u32) -> V {
+        let mut c = seq(&<Vec<F>>::gen(g, d)).clone();
+        while c.last().map(is_zero_v).unwrap_or(false) { c.pop(); }
+        V::Seq(vec![V::Seq(c)])
+    }
+    fn build(v: &V) -> Self { DensePolynomial { coeffs: Tv::build(&seq(v)[0]) } }
+    fn show(&self) -> V { V::Seq(vec![self.coeffs.show()]) }
+    fn scan(r: &mut &[u8], c: Compress) -> Result<(), bool> { <Vec<F>>::scan(r, c) }
+}
+/// strictly increasing indices below `bound`
+fn gen_indices(g: &mut Gen, n: usize, bound: u128) -> Vec<usize> {
+    let mut out = Vec::new();
+    let mut cur: u128 = match g.rng.below(3) { 0 => 0, 1 => g.rng.below(4) as u128, _ => g.rng.below(1000) as u128 };
+    for _ in 0..n {
+        if cur >= bound { break; }
+        out.push(cur as usize);
+        cur += 1 + match g.rng.below(6) { 0 | 1 | 2 => 0, 3 => g.rng.below(5) as u128, 4 => g.rng.below(1 << 20) as u128, _ => (g.rng.next() >> 3) as u128 };
+    }
+    out
+}
+fn gen_nonzero<F: Tv>(g: &mut Gen, d: u32) -> V { loop { let v = F::gen(g, d); if !is_zero_v(&v) { return v; } } }
+impl<F: Tv + Field> Tv for UvSparse<F> {
+    fn ty() -> String { format!("st({})", <Vec<(usize, F)>>::ty()) }
+    fn gen(g: &mut Gen, d: u32) -> V {
+        let n = g.len(d);
+        let idx = gen_indices(g, n, 1u128 << 64);
+        V::Seq(vec![V::Seq(idx.into_iter().map(|i| V::Seq(vec![V::I(i as i128), gen_nonzero::<F>(g, d + 2)])).collect())])
+    }
+    fn build(v: &V) -> Self { UvSparse::from_coefficients_vec(Tv::build(&seq(v)[0])) }
+    fn show(&self) -> V { V::Seq(vec![self.to_vec().show()]) }
+    fn scan(r: &mut &[u8], c: Compress) -> Result<(), bool> { <Vec<(usize, F)>>::scan(r, c) }
+}
+impl Tv for SparseTerm {
+    fn ty() -> String { format!("st({})", <Vec<(usize, usize)>>::ty()) }
+    fn gen(g: &mut Gen, d: u32) -> V {
+        let n = g.len(d + 1).min(4);
+        let idx = gen_indices(g, n, 6);
+        V::Seq(vec![V::Seq(idx.into_iter().map(|i| { let hi = if g.rng.below(4) == 0 { 1 << 40 } else { 5 }; V::Seq(vec![V::I(i as i128), V::I(1 + g.rng.below(hi) as i128)]) }).collect())])
+    }
+    fn build(v: &V) -> Self { SparseTerm::new(Tv::build(&seq(v)[0])) }
+    fn show(&self) -> V { V::Seq(vec![self.to_vec().show()]) }
+    fn scan(r: &mut &[u8], c: Compress) -> Result<(), bool> { <Vec<(usize, usize)>>::scan(r, c) }
+}
+impl<F: Tv + Field> Tv for MvSparse<F, SparseTerm> {
+    fn ty() -> String { format!("st(usize,{})", <Vec<(F, SparseTerm)>>::ty()) }
+    fn gen(g: &mut Gen, d: u32) -> V {
+        let n = g.len(d);
+        let mut terms: Vec<V> = Vec::new();
+        for _ in 0..n { terms.push(V::Seq(vec![gen_nonzero::<F>(g, d + 2), SparseTerm::gen(g, d + 2)])); }
+        V::Seq(vec![V::I(6 + g.rng.below(3) as i128), V::Seq(terms)])
+    }
+    /// through the constructor: terms sorted, equal terms added up, zero coefficients dropped
+    fn build(v: &V) -> Self { let s = seq(v); MvSparse::from_coefficients_vec(v_usize(&s[0]), Tv::build(&s[1])) }
+    fn show(&self) -> V { V::Seq(vec![V::I(self.num_vars as i128), self.terms.show()]) }
+    fn scan(r: &mut &[u8], c: Compress) -> Result<(), bool> { <(usize, Vec<(F, SparseTerm)>)>::scan(r, c) }
+}
+impl<F: Tv + Field> Tv for DenseMultilinearExtension<F> {
+    fn ty() -> String { format!("st({},usize)", <Vec<F>>::ty()) }
+    fn gen(g: &mut Gen, d: u32) -> V {
+        let nv = match g.top.take() { Some(0) => 0, Some(1) => 1, Some(_) => 5, None => g.rng.below(5) as usize };
+        V::Seq(vec![V::Seq((0..(1usize << nv)).map(|_| F::gen(g, d + 2)).collect()), V::I(nv as i128)])
+    }
+    fn build(v: &V) -> Self { let s = seq(v); DenseMultilinearExtension { evaluations: Tv::build(&s[0]), num_vars: v_usize(&s[1]) } }
+    fn show(&self) -> V { V::Seq(vec![self.evaluations.show(), V::I(self.num_vars as i128)]) }
+    fn scan(r: &mut &[u8], c: Compress) -> Result<(), bool> { <(Vec<F>, usize)>::scan(r, c) }
+}
+impl<F: Tv + Field> Tv for SparseMultilinearExtension<F> {
+    fn ty() -> String { format!("st({},usize,{})", <BTreeMap<usize, F>>::ty(), F::ty()) }
+    fn gen(g: &mut Gen, d: u32) -> V {
+        let nv = match g.rng.below(6) { 0 => 0, 1 => 1, 2 => 63, _ => 2 + g.rng.below(8) as usize };
+        let n = g.len(d);
+        let idx = gen_indices(g, n, 1u128 << nv);
+        let es: Vec<V> = idx.into_iter().map(|i| V::Seq(vec![V::I(i as i128), F::gen(g, d + 2)])).collect();
+        V::Seq(vec![V::Seq(es), V::I(nv as i128), F::zero().show()])
+    }
+    /// through the constructor (the field `zero` is private)
+    fn build(v: &V) -> Self {
+        let s = seq(v);
+        let es: Vec<(usize, F)> = seq(&s[0]).iter().map(|e| { let e = seq(e); (v_usize(&e[0]), F::build(&e[1])) }).collect();
+        SparseMultilinearExtension::from_evaluations(v_usize(&s[1]), es.iter())
+    }
+    /// `zero` is observed through `Index` at an absent key
+    fn show(&self) -> V {
+        let mut k = 0usize;
+        while self.evaluations.contains_key(&k) { k += 1; }
+        V::Seq(vec![self.evaluations.show(), V::I(self.num_vars as i128), self[k].show()])
+    }
+    fn scan(r: &mut &[u8], c: Compress) -> Result<(), bool> { <(BTreeMap<usize, F>, usize, F)>::scan(r, c) }
+}
+macro_rules! tv_domain {
+    ($D:ident) => {
+        impl<F: Tv + FftField> Tv for $D<F> {
+            fn ty() -> String { format!("st(u64,u32,{})", vec![F::ty(); 7].join(",")) }
+            fn gen(g: &mut Gen, _d: u32) -> V {
+                let top = g.top.take();
+                let base = loop {
+                    let hi = if g.rng.below(3) == 0 { 70 } else { 9 };
+                    let n = match top { Some(0) => 1, Some(1) => 2, _ => 1 + g.rng.below(hi) as usize };
+                    if let Some(dm) = <$D<F> as EvaluationDomain<F>>::new(n) { break dm; }
+                    if top.is_some() { break <$D<F> as EvaluationDomain<F>>::new(1).unwrap(); }
+                };
+                let dm = if g.rng.below(2) == 0 { base } else { base.get_coset(F::build(&gen_nonzero::<F>(g, 2))).unwrap() };
+                dm.show()
+            }
+            fn build(v: &V) -> Self {
+                let s = seq(v);
+                $D { size: v_usize(&s[0]) as u64, log_size_of_group: v_usize(&s[1]) as u32, size_as_field_element: Tv::build(&s[2]), size_inv: Tv::build(&s[3]),
+                     group_gen: Tv::build(&s[4]), group_gen_inv: Tv::build(&s[5]), offset: Tv::build(&s[6]), offset_inv: Tv::build(&s[7]), offset_pow_size: Tv::build(&s[8]) }
+            }
+            fn show(&self) -> V {
+                V::Seq(vec![V::I(self.size as i128), V::I(self.log_size_of_group as i128), self.size_as_field_element.show(), self.size_inv.show(),
+                            self.group_gen.show(), self.group_gen_inv.show(), self.offset.show(), self.offset_inv.show(), self.offset_pow_size.show()])
+            }
+            fn scan(r: &mut &[u8], c: Compress) -> Result<(), bool> { <(u64, u32)>::scan(r, c)?; for _ in 0..7 { F::scan(r, c)?; } Ok(()) }
+        }
+    };
+}
+tv_domain!(Radix2EvaluationDomain);
+tv_domain!(MixedRadixEvaluationDomain);
+impl<F: Tv + FftField> Tv for GeneralEvaluationDomain<F> {
+    fn ty() -> String { format!("gdom({},{})", <Radix2EvaluationDomain<F>>::ty(), <MixedRadixEvaluationDomain<F>>::ty()) }
+    fn gen(g: &mut Gen, d: u32) -> V {
+        if F::SMALL_SUBGROUP_BASE.is_some() && g.rng.below(2) == 0 { V::Seq(vec![V::I(1), <MixedRadixEvaluationDomain<F>>::gen(g, d)]) }
+        else { V::Seq(vec![V::I(0), <Radix2EvaluationDomain<F>>::gen(g, d)]) }
+    }
+    fn build(v: &V) -> Self {
+        let s = seq(v);
+        if v_usize(&s[0]) == 0 { GeneralEvaluationDomain::Radix2(Tv::build(&s[1])) } else { GeneralEvaluationDomain::MixedRadix(Tv::build(&s[1])) }
+    }
+    fn show(&self) -> V {
+        match self { GeneralEvaluationDomain::Radix2(d) => V::Seq(vec![V::I(0), d.show()]), GeneralEvaluationDomain::MixedRadix(d) => V::Seq(vec![V::I(1), d.show()]) }
+    }
+    fn scan(r: &mut &[u8], c: Compress) -> Result<(), bool> {
+        match take(r, 1)?[0] { 0 => <Radix2EvaluationDomain<F>>::scan(r, c), 1 => <MixedRadixEvaluationDomain<F>>::scan(r, c), _ => Err(false) }
+    }
+}
+/// `size` of a domain value in the `show` form (plain or behind the `GeneralEvaluationDomain` tag)
+fn dom_size(v: &V) -> usize { let s = seq(v); if s.len() == 2 { v_usize(&seq(&s[1])[0]) } else { v_usize(&s[0]) } }
+impl<F: Tv + FftField, D: Tv + EvaluationDomain<F>> Tv for Evaluations<F, D> {
+    fn ty() -> String { format!("st({},{})", <Vec<F>>::ty(), D::ty()) }
+    fn gen(g: &mut Gen, d: u32) -> V {
+        let dm = D::gen(g, d);
+        let n = dom_size(&dm);
+        V::Seq(vec![V::Seq((0..n).map(|_| F::gen(g, d + 2)).collect()), dm])
+    }
+    fn build(v: &V) -> Self { let s = seq(v); Evaluations::from_vec_and_domain(Tv::build(&s[0]), Tv::build(&s[1])) }
+    fn show(&self) -> V { V::Seq(vec![self.evals.show(), self.domain().show()]) }
+    fn scan(r: &mut &[u8], c: Compress) -> Result<(), bool> { <Vec<F>>::scan(r, c)?; D::scan(r, c) }
+}
+
 // ------------------------------------------------------------------ registry
 type SerFn = fn(&V, Compress) -> (Vec<u8>, usize);
 type DeFn = fn(&[u8], Compress, Validate) -> String;
 type RiskFn = fn(&[u8], Compress) -> bool;
 fn risk_fn<T: Tv>(b: &[u8], c: Compress) -> bool { let mut r = b; T::scan(&mut r, c) == Err(true) }
-struct Entry { ty: String, zw: bool, big: usize, ser: SerFn, de: Option<DeFn>, risk: RiskFn, gen: fn(&mut Gen, u32) -> V }
+/// the additional entry points of a type that has `CanonicalSerialize + CanonicalDeserialize (+ Valid)`
+#[derive(Clone, Copy)]
+struct Ops {
+    chk: fn(&V) -> String,
+    bchk: fn(&[V]) -> String,
+    hash: fn(&V, Compress) -> String,
+    cser: fn(&V) -> String,
+    cde: fn(&[u8], Compress, Validate) -> String,
+    wfail: fn(&V, Compress, usize, bool) -> String,
+    rfail: fn(&[u8], Compress, Validate, usize, usize, bool) -> String,
+    norm: fn(&V) -> V,
+}
+struct Entry { ty: String, zw: bool, big: usize, ser: SerFn, de: Option<DeFn>, risk: RiskFn, gen: fn(&mut Gen, u32) -> V, ops: Option<Ops>, poly: bool, light: bool }
+
+fn res_unit(r: Result<(), SerializationError>) -> String { match r { Ok(()) => "ok".into(), Err(e) => err_class(&e).into() } }
+fn chk_fn<T: Tv + Valid>(v: &V) -> String { guarded(|| res_unit(T::build(v).check())) }
+fn bchk_fn<T: Tv + Valid>(vs: &[V]) -> String {
+    guarded(|| { let xs: Vec<T> = vs.iter().map(T::build).collect(); res_unit(T::batch_check(xs.iter())) })
+}
+fn hash_fn<T: Tv + CanonicalSerialize>(v: &V, c: Compress) -> String {
+    guarded(|| { let x = T::build(v); let h = match c { Compress::Yes => x.hash::<Sha256>(), Compress::No => x.hash_uncompressed::<Sha256>() }; hexs(&h) })
+}
+fn cser_fn<T: Tv + CanonicalSerialize>(v: &V) -> String {
+    guarded(|| {
+        let x = T::build(v);
+        let (mut a, mut b) = (Vec::new(), Vec::new());
+        if let Err(e) = x.serialize_compressed(&mut a) { return err_class(&e).into(); }
+        if let Err(e) = x.serialize_uncompressed(&mut b) { return err_class(&e).into(); }
+        format!("{} {:x} {} {:x}", hexs(&a), x.compressed_size(), hexs(&b), x.uncompressed_size())
+    })
+}
+fn de_result<T: Tv>(r: Result<T, SerializationError>, consumed: usize) -> String {
+    match r {
+        Ok(x) => {
+            let h = x.huge();
+            let s = if h > 0 { format!("ok-huge {:x} {:x}", h, consumed) } else { format!("ok {} {:x}", showv(&x.show()), consumed) };
+            if h > 0 { std::mem::forget(x); }
+            s
+        },
+        Err(e) => err_class(&e).into(),
+    }
+}
+/// the four convenience methods of `CanonicalDeserialize`
+fn cde_fn<T: Tv + CanonicalDeserialize>(bytes: &[u8], c: Compress, v: Validate) -> String {
+    guarded(|| {
+        let mut r = &bytes[..];
+        let res = match (c, v) {
+            (Compress::Yes, Validate::Yes) => T::deserialize_compressed(&mut r),
+            (Compress::Yes, Validate::No) => T::deserialize_compressed_unchecked(&mut r),
+            (Compress::No, Validate::Yes) => T::deserialize_uncompressed(&mut r),
+            (Compress::No, Validate::No) => T::deserialize_uncompressed_unchecked(&mut r),
+        };
+        let consumed = bytes.len() - r.len();
+        de_result(res, consumed)
+    })
+}
+/// a writer that accepts `cap` bytes in total (partial writes), then fails: with an error, or with `Ok(0)`
+struct FailW { buf: Vec<u8>, cap: usize, zero: bool }
+impl std::io::Write for FailW {
+    fn write(&mut self, b: &[u8]) -> std::io::Result<usize> {
+        let room = self.cap - self.buf.len();
+        if room == 0 && !b.is_empty() {
+            return if self.zero { Ok(0) } else { Err(std::io::Error::new(std::io::ErrorKind::Other, "writer full")) };
+        }
+        let n = room.min(b.len());
+        self.buf.extend_from_slice(&b[..n]);
+        Ok(n)
+    }
+    fn flush(&mut self) -> std::io::Result<()> { Ok(()) }
+}
+fn wfail_fn<T: Tv + CanonicalSerialize>(v: &V, c: Compress, k: usize, zero: bool) -> String {
+    guarded(|| {
+        let x = T::build(v);
+        let mut w = FailW { buf: Vec::new(), cap: k, zero };
+        match x.serialize_with_mode(&mut w, c) { Ok(()) => format!("ok {}", hexs(&w.buf)), Err(e) => format!("{} {}", err_class(&e), hexs(&w.buf)) }
+    })
+}
+/// a reader over `data[..limit]` handing out at most `chunk` bytes per call; at `limit` it fails with an error
+/// (or reports end of input when `limit == data.len()`); `interrupt`: every other call returns `Interrupted`
+struct FailR<'a> { data: &'a [u8], pos: usize, limit: usize, chunk: usize, interrupt: bool, flip: bool }
+impl<'a> std::io::Read for FailR<'a> {
+    fn read(&mut self, buf: &mut [u8]) -> std::io::Result<usize> {
+        if self.interrupt { self.flip = !self.flip; if self.flip { return Err(std::io::Error::new(std::io::ErrorKind::Interrupted, "again")); } }
+        if buf.is_empty() { return Ok(0); }
+        if self.pos >= self.limit {
+            return if self.limit >= self.data.len() { Ok(0) } else { Err(std::io::Error::new(std::io::ErrorKind::Other, "reader broke")) };
+        }
+        let n = buf.len().min(self.chunk).min(self.limit - self.pos);
+        buf[..n].copy_from_slice(&self.data[self.pos..self.pos + n]);
+        self.pos += n;
+        Ok(n)
+    }
+}
+fn rfail_fn<T: Tv + CanonicalDeserialize>(bytes: &[u8], c: Compress, v: Validate, k: usize, chunk: usize, interrupt: bool) -> String {
+    guarded(|| {
+        let mut r = FailR { data: bytes, pos: 0, limit: k.min(bytes.len()), chunk: chunk.max(1), interrupt, flip: false };
+        let res = T::deserialize_with_mode(&mut r, c, v);
+        let consumed = r.pos;
+        de_result(res, consumed)
+    })
+}
+fn norm_fn<T: Tv>(v: &V) -> V { T::build(v).show() }
+fn ops_of<T: Tv + CanonicalSerialize + CanonicalDeserialize>() -> Ops {
+    Ops { chk: chk_fn::<T>, bchk: bchk_fn::<T>, hash: hash_fn::<T>, cser: cser_fn::<T>, cde: cde_fn::<T>, wfail: wfail_fn::<T>, rfail: rfail_fn::<T>, norm: norm_fn::<T> }
+}
 
 fn ser_fn<T: Tv + CanonicalSerialize>(v: &V, c: Compress) -> (Vec<u8>, usize) {
     let x = T::build(v);
@@ -510,16 +843,24 @@ fn de_fn<T: Tv + CanonicalDeserialize>(bytes: &[u8], c: Compress, v: Validate) -
 fn big_of(ty: &str) -> usize { if ty.matches('(').count() <= 1 { 200 } else { 24 } }
 fn entry<T: Tv + CanonicalSerialize + CanonicalDeserialize>() -> Entry {
     let ty = T::ty();
-    Entry { big: big_of(&ty), ty, zw: false, ser: ser_fn::<T>, de: Some(de_fn::<T>), risk: risk_fn::<T>, gen: T::gen }
+    Entry { big: big_of(&ty), ty, zw: false, ser: ser_fn::<T>, de: Some(de_fn::<T>), risk: risk_fn::<T>, gen: T::gen, ops: Some(ops_of::<T>()), poly: false, light: false }
+}
+/// a type of `ark-poly` (or a container of such) over the prime field `F`: type token `P<p>.<kind>.<ty>`
+fn pentry<T: Tv + CanonicalSerialize + CanonicalDeserialize, F: PrimeField>(kind: &str) -> Entry {
+    let mut e = entry::<T>();
+    let p: BigUint = F::MODULUS.into();
+    e.ty = format!("P{:x}.{}.{}", p, kind, T::ty());
+    e.poly = true;
+    e
 }
 fn entry_zw<T: Tv + CanonicalSerialize + CanonicalDeserialize>() -> Entry { let mut e = entry::<T>(); e.zw = true; e }
 fn entry_ser<T: Tv + CanonicalSerialize>() -> Entry {
     let ty = T::ty();
-    Entry { big: big_of(&ty), ty, zw: false, ser: ser_fn::<T>, de: None, risk: risk_fn::<T>, gen: T::gen }
+    Entry { big: big_of(&ty), ty, zw: false, ser: ser_fn::<T>, de: None, risk: risk_fn::<T>, gen: T::gen, ops: None, poly: false, light: false }
 }
 fn entry_custom<T: Tv>(name: &str, ser: SerFn) -> Entry {
     let ty = format!("{}({})", name, T::ty());
-    Entry { big: big_of(&ty), ty, zw: false, ser, de: None, risk: risk_fn::<T>, gen: T::gen }
+    Entry { big: big_of(&ty), ty, zw: false, ser, de: None, risk: risk_fn::<T>, gen: T::gen, ops: None, poly: false, light: false }
 }
 
 macro_rules! reg { ($v:ident; $($t:ty),* $(,)?) => { $( $v.push(entry::<$t>()); )* } }
@@ -581,7 +922,71 @@ fn registry() -> Vec<Entry> {
     r.push(entry_custom::<Ml>("slice", ser_slice::<Ml>));
     r.push(entry_custom::<String>("slice", ser_slice::<String>));
     r.push(entry_custom::<Vec<u8>>("slice", ser_slice::<Vec<u8>>));
+    let n_main = r.len();
+    // ---- appended (indices of the entries above are unchanged)
+    // `BigInt<N>` goes through `[u64; N]`; more `Valid` impls called directly (`chk` / `bchk` lines)
+    reg!(r; BigInt<1>, BigInt<4>, BigInt<6>, Vec<BigInt<2>>, Option<BigInt<3>>,
+        Vec<[Ml; 2]>, VecDeque<[Ml; 2]>, LinkedList<[Ml; 2]>, BTreeSet<[Ml; 2]>, [[Ml; 2]; 2], Vec<VecDeque<Ml>>, Vec<LinkedList<Ml>>, Vec<BTreeSet<Ml>>,
+        Vec<BTreeMap<Ml, Ml>>, BTreeMap<Ml, Ml>, Arc<Vec<Ml>>, Vec<Arc<Ml>>, Cow<'static, Vec<Ml>>, Vec<Cow<'static, Ml>>, Option<Arc<Ml>>,
+        (Ml, Ml, Ml, Ml, Ml), Vec<(Ml, u8)>, Vec<isize>, Option<isize>, Gen1<Option<Ml>>, Vec<Gen2<Ml, Ml>>, Vec<Deep>);
+    // (their container code is exercised by the entries above: fewer values in the quick tier)
+    for e in r[n_main..].iter_mut() { e.light = true; }
+    poly_registry(&mut r);
     r
+}
+fn ptoken<T: Tv, F: PrimeField>(kind: &str) -> String { let p: BigUint = F::MODULUS.into(); format!("P{:x}.{}.{}", p, kind, T::ty()) }
+type BlsFr = ark_test_curves::bls12_381::Fr;
+type BlsFq = ark_test_curves::bls12_381::Fq;
+type BlsFq2 = ark_test_curves::bls12_381::Fq2;
+type BlsFq6 = ark_test_curves::bls12_381::Fq6;
+type BnFr = ark_test_curves::bn384_small_two_adicity::Fr;
+type Mnt6Fq3 = ark_test_curves::mnt6_753::Fq3;
+type Mnt6Fq = ark_test_curves::mnt6_753::Fq;
+fn poly_registry(r: &mut Vec<Entry>) {
+    macro_rules! suite {
+        ($F:ty) => {
+            r.push(pentry::<$F, $F>("fp"));
+            r.push(pentry::<DensePolynomial<$F>, $F>("dense"));
+            r.push(pentry::<UvSparse<$F>, $F>("sparse"));
+            r.push(pentry::<MvSparse<$F, SparseTerm>, $F>("mvsparse"));
+            r.push(pentry::<DenseMultilinearExtension<$F>, $F>("dext"));
+            r.push(pentry::<SparseMultilinearExtension<$F>, $F>("sext"));
+            r.push(pentry::<Radix2EvaluationDomain<$F>, $F>("r2dom"));
+            r.push(pentry::<GeneralEvaluationDomain<$F>, $F>("gdom"));
+            r.push(pentry::<Evaluations<$F, Radix2EvaluationDomain<$F>>, $F>("evals"));
+            r.push(pentry::<Evaluations<$F>, $F>("evals"));
+        };
+    }
+    suite!(FDT257);
+    suite!(M401);
+    r.push(pentry::<MixedRadixEvaluationDomain<M401>, M401>("mrdom"));
+    r.push(pentry::<Evaluations<M401, MixedRadixEvaluationDomain<M401>>, M401>("evals"));
+    suite!(BlsFr);
+    r.push(pentry::<MixedRadixEvaluationDomain<BnFr>, BnFr>("mrdom"));
+    r.push(pentry::<GeneralEvaluationDomain<BnFr>, BnFr>("gdom"));
+    r.push(pentry::<Evaluations<BnFr>, BnFr>("evals"));
+    r.push(pentry::<SparseTerm, FDT13>("term"));
+    // 8-byte encodings: 61 bits (three spare bits), 64 bits (none)
+    r.push(pentry::<FDM61, FDM61>("fp"));
+    r.push(pentry::<DensePolynomial<FDM61>, FDM61>("dense"));
+    r.push(pentry::<FDP64m59, FDP64m59>("fp"));
+    r.push(pentry::<UvSparse<FDP64m59>, FDP64m59>("sparse"));
+    r.push(pentry::<DenseMultilinearExtension<FDP64m59>, FDP64m59>("dext"));
+    // extension fields as coefficient rings (coordinates in order, no flags), towers
+    r.push(pentry::<BlsFq2, BlsFq>("-"));
+    r.push(pentry::<BlsFq6, BlsFq>("-"));
+    r.push(pentry::<Mnt6Fq3, Mnt6Fq>("-"));
+    r.push(pentry::<DensePolynomial<BlsFq2>, BlsFq>("dense"));
+    r.push(pentry::<MvSparse<BlsFq2, SparseTerm>, BlsFq>("mvsparse"));
+    r.push(pentry::<SparseMultilinearExtension<Mnt6Fq3>, Mnt6Fq>("sext"));
+    // containers of them
+    r.push(pentry::<Vec<DensePolynomial<FDT257>>, FDT257>("-"));
+    r.push(pentry::<Option<Evaluations<FDT257>>, FDT257>("-"));
+    r.push(pentry::<(DensePolynomial<M401>, UvSparse<M401>, GeneralEvaluationDomain<M401>), M401>("-"));
+    r.push(pentry::<BTreeMap<u8, DenseMultilinearExtension<FDT257>>, FDT257>("-"));
+    r.push(pentry::<Vec<FDT257>, FDT257>("-"));
+    r.push(pentry::<[BlsFr; 2], BlsFr>("-"));
+    r.push(pentry::<Arc<DensePolynomial<BlsFr>>, BlsFr>("-"));
 }
 // `entry_custom::<T>("slice", …)` generates element values; wrap them into a sequence
 fn gen_for(e: &Entry, g: &mut Gen) -> V {
@@ -697,7 +1102,7 @@ fn streams(cx: &mut Ctx, idx: usize, e: &Entry, val: &V, valid: bool) {
         let (bytes, size) = (e.ser)(val, c);
         cx.out.line(&format!("C18 ser {} {} {}", cs, e.ty, showv(val)), &format!("{} {:x}", hexs(&bytes), size));
         if e.de.is_none() { continue; }
-        let has_ml = e.ty.contains("ml");
+        let has_ml = !e.poly && e.ty.contains("ml");
         // complete encoding, both validation modes; with trailing bytes; in the other compress mode
         cx.de(idx, e, vtag, c, Validate::Yes, &bytes);
         cx.de(idx, e, vtag, c, Validate::No, &bytes);
@@ -710,6 +1115,8 @@ fn streams(cx: &mut Ctx, idx: usize, e: &Entry, val: &V, valid: bool) {
         if has_ml { cx.de(idx, e, "m", other(c), Validate::Yes, &bytes); }
         let n = bytes.len();
         if n == 0 { continue; }
+        // the encodings of the `ark-poly` types do not depend on the compress mode: malformed variants in one of the two
+        if e.poly && !cx.thorough && (n % 2 == 0) != (c == Compress::Yes) { continue; }
         // truncations
         if valid {
             let cuts: Vec<usize> = if n <= 24 || (cx.thorough && n <= 80) { (0..n).collect() } else {
@@ -838,6 +1245,274 @@ fn fixed_streams(cx: &mut Ctx, reg: &[Entry]) {
     }
 }
 
+
+// ------------------------------------------------------------------ values that violate an invariant of their type (tag `w`)
+fn wb<T: CanonicalSerialize>(x: &T) -> Vec<u8> { let mut b = Vec::new(); x.serialize_compressed(&mut b).unwrap(); b }
+/// the nine fields of a radix-2 / mixed-radix domain (tuples of arity ≤ 5 concatenate like the struct)
+fn dom_bytes<F: Field>(size: u64, log: u32, f: [F; 7]) -> Vec<u8> { wb(&((size, log, f[0], f[1]), (f[2], f[3], f[4], f[5], f[6]))) }
+fn dom_fields<F: FftField, D: EvaluationDomain<F>>(d: &D) -> [F; 7] {
+    [F::from(d.size() as u64), d.size_inv(), d.group_gen(), d.group_gen_inv(), d.coset_offset(), d.coset_offset_inv(), d.coset_offset_pow_size()]
+}
+fn puse_line<T: CanonicalDeserialize>(cx: &mut Ctx, what: &str, token: &str, bytes: &[u8], f: impl FnOnce(T) -> String) {
+    let r = guarded(|| match T::deserialize_compressed(bytes) { Ok(x) => format!("ok:{}", f(x)), Err(e) => err_class(&e).into() });
+    cx.out.line(&format!("C18 puse {} {} {}", what, token, hexs(bytes)), &r);
+}
+fn illformed_field<F: Tv + FftField + PrimeField>(cx: &mut Ctx, reg: &[Entry], mixed: bool, full_sweep: bool) {
+    let find = |tok: String| reg.iter().position(|e| e.ty == tok).unwrap();
+    let w = |cx: &mut Ctx, i: usize, bytes: &[u8]| { for (c, v) in ALL_MODES { cx.de(i, &reg[i], "w", c, v, bytes); } };
+    let f = |x: u64| F::from(x);
+    let one = F::one();
+    // DensePolynomial: trailing zero coefficients
+    let i = find(ptoken::<DensePolynomial<F>, F>("dense"));
+    let tok = reg[i].ty.clone();
+    for cs in [vec![f(1), f(0)], vec![f(0)], vec![f(0), f(0), f(0)], vec![f(5), f(7), f(0), f(0)]] {
+        let b = wb(&cs);
+        w(cx, i, &b);
+        puse_line::<DensePolynomial<F>>(cx, "dense.degree", &tok, &b, |p| format!("{:x}", p.degree()));
+        puse_line::<DensePolynomial<F>>(cx, "dense.evaluate", &tok, &b, |p| showv(&p.evaluate(&F::from(3u64)).show()));
+        puse_line::<DensePolynomial<F>>(cx, "dense.mul", &tok, &b, |p| showv(&(&p * &p).coeffs.show()));
+    }
+    // univariate SparsePolynomial: unsorted, repeated index, zero coefficient
+    let i = find(ptoken::<UvSparse<F>, F>("sparse"));
+    let tok = reg[i].ty.clone();
+    for cs in [vec![(5usize, f(1)), (1, f(2))], vec![(1, f(1)), (1, f(2))], vec![(0, f(0))], vec![(0, f(3)), (2, f(0)), (4, f(1))], vec![(2, f(3)), (2, f(254))]] {
+        let b = wb(&cs);
+        w(cx, i, &b);
+        puse_line::<UvSparse<F>>(cx, "sparse.degree", &tok, &b, |p| format!("{:x}", p.degree()));
+        puse_line::<UvSparse<F>>(cx, "sparse.evaluate", &tok, &b, |p| showv(&p.evaluate(&F::from(3u64)).show()));
+        puse_line::<UvSparse<F>>(cx, "sparse.into_dense", &tok, &b, |p| showv(&DensePolynomial::from(p).coeffs.show()));
+    }
+    // multivariate SparsePolynomial: variable ≥ num_vars, zero coefficient, unsorted / repeated terms, ill-formed term inside
+    let i = find(ptoken::<MvSparse<F, SparseTerm>, F>("mvsparse"));
+    let tok = reg[i].ty.clone();
+    type Tm = Vec<(usize, usize)>;
+    let mv: Vec<(usize, Vec<(F, Tm)>)> = vec![
+        (1, vec![(f(1), vec![(3, 1)])]), (2, vec![(f(0), vec![(0, 1)])]), (2, vec![(f(1), vec![(0, 2)]), (f(1), vec![(0, 1)])]),
+        (2, vec![(f(1), vec![(1, 1)]), (f(2), vec![(1, 1)])]), (3, vec![(f(1), vec![(2, 1), (0, 1)])]), (3, vec![(f(1), vec![(1, 0)])]), (0, vec![(f(1), vec![(0, 1)])])];
+    for m in mv {
+        let b = wb(&m);
+        w(cx, i, &b);
+        puse_line::<MvSparse<F, SparseTerm>>(cx, "mvsparse.degree", &tok, &b, |p| format!("{:x}", p.degree()));
+        let nv = m.0;
+        puse_line::<MvSparse<F, SparseTerm>>(cx, "mvsparse.evaluate", &tok, &b, move |p| showv(&p.evaluate(&vec![F::from(2u64); nv]).show()));
+    }
+    // DenseMultilinearExtension: evaluations.len() ≠ 2^num_vars
+    let i = find(ptoken::<DenseMultilinearExtension<F>, F>("dext"));
+    let tok = reg[i].ty.clone();
+    for (ev, nv) in [(vec![f(1), f(2), f(3)], 2usize), (vec![f(1), f(2), f(3), f(4)], 1), (vec![], 0), (vec![f(1)], 64), (vec![f(1)], usize::MAX), (vec![f(1), f(2)], 0), (vec![], 3)] {
+        let b = wb(&(ev, nv));
+        w(cx, i, &b);
+        if nv <= 8 {
+            puse_line::<DenseMultilinearExtension<F>>(cx, "dext.evaluate", &tok, &b, move |p| showv(&p.evaluate(&vec![F::from(2u64); nv]).show()));
+            puse_line::<DenseMultilinearExtension<F>>(cx, "dext.add", &tok, &b, |p| showv(&(&p + &p).evaluations.show()));
+        }
+        puse_line::<DenseMultilinearExtension<F>>(cx, "dext.num_vars", &tok, &b, |p| format!("{:x}", p.num_vars()));
+    }
+    // SparseMultilinearExtension: index ≥ 2^num_vars, `zero` ≠ 0, num_vars ≥ 64
+    let i = find(ptoken::<SparseMultilinearExtension<F>, F>("sext"));
+    let tok = reg[i].ty.clone();
+    let mk = |es: &[(usize, u64)]| -> BTreeMap<usize, F> { es.iter().map(|(k, x)| (*k, f(*x))).collect() };
+    for (es, nv, z) in [(mk(&[(4, 1)]), 2usize, f(0)), (mk(&[(0, 1)]), 2, f(5)), (mk(&[]), 1, one), (mk(&[(1, 1)]), 0, f(0)), (mk(&[(0, 1)]), 64, f(0)), (mk(&[(usize::MAX, 1)]), 3, f(0))] {
+        let b = wb(&(es, nv, z));
+        w(cx, i, &b);
+        if nv <= 8 {
+            puse_line::<SparseMultilinearExtension<F>>(cx, "sext.evaluate", &tok, &b, move |p| showv(&p.evaluate(&vec![F::from(2u64); nv]).show()));
+            puse_line::<SparseMultilinearExtension<F>>(cx, "sext.to_evaluations", &tok, &b, |p| showv(&p.to_evaluations().show()));
+        }
+    }
+    // domains: every field perturbed on its own
+    let base = Radix2EvaluationDomain::<F>::new(4).unwrap();
+    let bf = dom_fields::<F, _>(&base);
+    let two = base.get_coset(f(3)).unwrap();
+    let tf = dom_fields::<F, _>(&two);
+    let mut doms: Vec<(&str, Vec<u8>)> = vec![
+        ("size+1", dom_bytes(5, 2, bf)), ("size*2", dom_bytes(8, 2, bf)), ("size=0", dom_bytes(0, 2, bf)), ("size=2^63", dom_bytes(1 << 63, 2, bf)),
+        ("log+1", dom_bytes(4, 3, bf)), ("log=0", dom_bytes(4, 0, bf)), ("log=64", dom_bytes(4, 64, bf)), ("log=max", dom_bytes(4, u32::MAX, bf))];
+    for k in 0..7 {
+        let mut g = bf; g[k] += one; doms.push((["size_fe+1", "size_inv+1", "gen+1", "gen_inv+1", "offset+1", "offset_inv+1", "offset_pow+1"][k], dom_bytes(4, 2, g)));
+    }
+    { let mut g = bf; g[2] = one; g[3] = one; doms.push(("gen=1", dom_bytes(4, 2, g))); }
+    { let mut g = bf; g[2] = bf[2].square(); g[3] = bf[3].square(); doms.push(("gen^2", dom_bytes(4, 2, g))); }
+    { let mut g = bf; g[2] = F::zero(); g[3] = F::zero(); doms.push(("gen=0", dom_bytes(4, 2, g))); }
+    { let mut g = bf; g[4] = F::zero(); g[5] = F::zero(); g[6] = F::zero(); doms.push(("offset=0", dom_bytes(4, 2, g))); }
+    { let mut g = tf; g[6] = one; doms.push(("coset:pow=1", dom_bytes(4, 2, g))); }
+    { let mut g = bf; g[0] = F::zero(); g[1] = F::zero(); doms.push(("size_fe=0", dom_bytes(4, 2, g))); }
+    let ir = find(ptoken::<Radix2EvaluationDomain<F>, F>("r2dom"));
+    let ig = find(ptoken::<GeneralEvaluationDomain<F>, F>("gdom"));
+    let ie = find(ptoken::<Evaluations<F, Radix2EvaluationDomain<F>>, F>("evals"));
+    let ieg = find(ptoken::<Evaluations<F>, F>("evals"));
+    let (tr, tg, te) = (reg[ir].ty.clone(), reg[ig].ty.clone(), reg[ie].ty.clone());
+    let coeffs = vec![f(1), f(2), f(3)];
+    for (name, b) in doms.iter() {
+        w(cx, ir, b);
+        let mut gb = vec![0u8]; gb.extend_from_slice(b);
+        w(cx, ig, &gb);
+        // evaluations of the right length for the announced size (when that is small), over the ill-formed domain
+        let size = u64::from_le_bytes(b[..8].try_into().unwrap());
+        if size <= 64 {
+            let mut eb = wb(&(0..size).map(|x| f(x + 1)).collect::<Vec<F>>()); eb.extend_from_slice(b);
+            w(cx, ie, &eb);
+            let mut egb = wb(&(0..size).map(|x| f(x + 1)).collect::<Vec<F>>()); egb.extend_from_slice(&gb);
+            w(cx, ieg, &egb);
+            let what = format!("r2dom.fft[{}]", name);
+            let cs = coeffs.clone();
+            puse_line::<Radix2EvaluationDomain<F>>(cx, &what, &tr, b, move |d| showv(&d.fft(&cs).show()));
+            let cs = coeffs.clone();
+            puse_line::<Radix2EvaluationDomain<F>>(cx, &format!("r2dom.ifft[{}]", name), &tr, b, move |d| showv(&d.ifft(&cs).show()));
+            puse_line::<Radix2EvaluationDomain<F>>(cx, &format!("r2dom.elements[{}]", name), &tr, b, |d| showv(&d.elements().take(70).collect::<Vec<F>>().show()));
+            puse_line::<Radix2EvaluationDomain<F>>(cx, &format!("r2dom.lagrange[{}]", name), &tr, b, |d| showv(&d.evaluate_all_lagrange_coefficients(F::from(7u64)).show()));
+            puse_line::<GeneralEvaluationDomain<F>>(cx, &format!("gdom.vanishing[{}]", name), &tg, &gb, |d| showv(&d.evaluate_vanishing_polynomial(F::from(7u64)).show()));
+            puse_line::<Evaluations<F, Radix2EvaluationDomain<F>>>(cx, &format!("evals.interpolate[{}]", name), &te, &eb, |e| showv(&e.interpolate().coeffs.show()));
+        }
+    }
+    // Evaluations: evals.len() ≠ domain.size() over a well-formed domain
+    let good = dom_bytes(4, 2, bf);
+    for n in [0u64, 1, 3, 5, 8] {
+        let mut eb = wb(&(0..n).map(|x| f(x + 1)).collect::<Vec<F>>()); eb.extend_from_slice(&good);
+        w(cx, ie, &eb);
+        puse_line::<Evaluations<F, Radix2EvaluationDomain<F>>>(cx, "evals.interpolate[len]", &te, &eb, |e| showv(&e.interpolate().coeffs.show()));
+        puse_line::<Evaluations<F, Radix2EvaluationDomain<F>>>(cx, "evals.add[len]", &te, &eb, |e| showv(&(&e + &e).evals.show()));
+        puse_line::<Evaluations<F, Radix2EvaluationDomain<F>>>(cx, "evals.index3[len]", &te, &eb, |e| showv(&e[3].show()));
+    }
+    // GeneralEvaluationDomain: every tag byte (0 and 1 select a variant, the rest is `InvalidData`), a mixed-radix size under the radix-2 tag
+    for t in 0u16..256 {
+        let mut gb = vec![t as u8]; gb.extend_from_slice(&good);
+        // (tag 1 over a radix-2 payload: a mixed-radix domain of power-of-two size, which `new` never returns for this field)
+        let tag = if t >= 2 { "b" } else if t == 0 { "v" } else { "m" };
+        if !full_sweep && t >= 4 && t <= 253 { continue; }
+        cx.de(ig, &reg[ig], tag, Compress::Yes, Validate::Yes, &gb);
+        if t < 4 || t > 253 { for (c, v) in ALL_MODES { cx.de(ig, &reg[ig], tag, c, v, &gb); } }
+    }
+    if mixed {
+        let md = MixedRadixEvaluationDomain::<F>::new(10).unwrap();
+        let mb = dom_bytes(md.size, md.log_size_of_group, dom_fields::<F, _>(&md));
+        let im = find(ptoken::<MixedRadixEvaluationDomain<F>, F>("mrdom"));
+        let tm = reg[im].ty.clone();
+        let mut gb = vec![0u8]; gb.extend_from_slice(&mb);
+        w(cx, ir, &mb);
+        w(cx, ig, &gb);
+        let cs = coeffs.clone();
+        puse_line::<Radix2EvaluationDomain<F>>(cx, "r2dom.fft[mixed-size]", &tr, &mb, move |d| showv(&d.fft(&cs).show()));
+        let bad = [("size+1", dom_bytes(md.size + 1, md.log_size_of_group, dom_fields::<F, _>(&md))), ("log+1", dom_bytes(md.size, md.log_size_of_group + 1, dom_fields::<F, _>(&md))),
+                   ("gen^5", { let mut g = dom_fields::<F, _>(&md); g[2] = g[2].pow([5u64]); g[3] = g[3].pow([5u64]); dom_bytes(md.size, md.log_size_of_group, g) })];
+        for (name, b) in bad.iter() {
+            w(cx, im, b);
+            let cs = coeffs.clone();
+            puse_line::<MixedRadixEvaluationDomain<F>>(cx, &format!("mrdom.fft[{}]", name), &tm, b, move |d| showv(&d.fft(&cs).show()));
+        }
+    }
+}
+fn illformed_streams(cx: &mut Ctx, reg: &[Entry]) {
+    let th = cx.thorough;
+    illformed_field::<FDT257>(cx, reg, false, true);
+    illformed_field::<M401>(cx, reg, true, th);
+    illformed_field::<BlsFr>(cx, reg, false, th);
+    // SparseTerm: unsorted / repeated variables, zero powers
+    let i = reg.iter().position(|e| e.ty == ptoken::<SparseTerm, FDT13>("term")).unwrap();
+    for t in [vec![(2usize, 1usize), (0, 1)], vec![(1, 1), (1, 2)], vec![(0, 0)], vec![(0, 1), (3, 0), (4, 2)]] {
+        let b = wb(&t);
+        for (c, v) in ALL_MODES { cx.de(i, &reg[i], "w", c, v, &b); }
+        let tok = reg[i].ty.clone();
+        puse_line::<SparseTerm>(cx, "term.degree", &tok, &b, |t| format!("{:x}", t.degree()));
+        puse_line::<SparseTerm>(cx, "term.evaluate", &tok, &b, |t| showv(&t.evaluate(&[FDT13::from(2u64), FDT13::from(3u64), FDT13::from(4u64), FDT13::from(5u64), FDT13::from(6u64)]).show()));
+    }
+}
+
+// ------------------------------------------------------------------ the further entry points (see the header)
+fn cstr(c: Compress) -> &'static str { if c == Compress::Yes { "c" } else { "u" } }
+const ALL_MODES: [(Compress, Validate); 4] = [(Compress::Yes, Validate::Yes), (Compress::Yes, Validate::No), (Compress::No, Validate::Yes), (Compress::No, Validate::No)];
+/// `vals`: the values of the entry's main stream with their validity
+fn extra_streams(cx: &mut Ctx, e: &Entry, vals: &[(V, bool)]) {
+    let Some(ops) = e.ops else { return; };
+    let th = cx.thorough;
+    for (k, (v, valid)) in vals.iter().enumerate() {
+        let sv = showv(v);
+        cx.out.line(&format!("C18 chk {} {}", e.ty, sv), &(ops.chk)(v));
+        if k < 3 || th { cx.out.line(&format!("C18 cser {} {}", e.ty, sv), &(ops.cser)(v)); }
+        if k < 2 || (th && k < 6) || !*valid {
+            for c in [Compress::Yes, Compress::No] { cx.out.line(&format!("C18 hash {} {} {}", cstr(c), e.ty, sv), &(ops.hash)(v, c)); }
+        }
+        // convenience deserialisers: the complete encoding, a truncation, (mode-sensitive types) the other mode's bytes
+        let mode_sensitive = !e.poly && e.ty.contains("ml");
+        if k == 1 || (k == 3 && (e.poly || mode_sensitive)) || (th && k < 8) || !*valid {
+            for c in [Compress::Yes, Compress::No] {
+                let (bytes, _) = (e.ser)(v, c);
+                let tag = if *valid { "v" } else { "i" };
+                for vd in [Validate::Yes, Validate::No] {
+                    cx.out.line(&format!("C18 cde {} {} {} {}", tag, mode_str(c, vd), e.ty, hexs(&bytes)), &(ops.cde)(&bytes, c, vd));
+                }
+                if *valid && !bytes.is_empty() {
+                    let cut = cx.rng.below(bytes.len() as u64) as usize;
+                    let vd = if cx.rng.below(2) == 0 { Validate::Yes } else { Validate::No };
+                    cx.out.line(&format!("C18 cde t {} {} {}", mode_str(c, vd), e.ty, hexs(&bytes[..cut])), &(ops.cde)(&bytes[..cut], c, vd));
+                }
+                if !e.poly && e.ty.contains("ml") {
+                    cx.out.line(&format!("C18 cde m {} {} {}", mode_str(other(c), Validate::Yes), e.ty, hexs(&bytes)), &(ops.cde)(&bytes, other(c), Validate::Yes));
+                }
+            }
+        }
+        // failing writer / reader
+        if k == 1 || (k == 3 && (e.poly || mode_sensitive)) || (th && k < 8) || (!*valid && k % 2 == 0) {
+            let c = if k % 2 == 1 { Compress::Yes } else { Compress::No };
+            let c = if k == 3 { other(c) } else { c };
+            let (bytes, _) = (e.ser)(v, c);
+            let n = bytes.len();
+            let ks: Vec<usize> = if n <= 10 || (th && n <= 64) { (0..=n + 1).collect() } else {
+                let mut t = vec![0, 7, 8, 9, n - 1, n, n + 1];
+                for _ in 0..(if th { 12 } else { 2 }) { t.push(cx.rng.below(n as u64) as usize); }
+                t.sort(); t.dedup(); t
+            };
+            for &kk in &ks {
+                let zero = cx.rng.below(3) == 0;
+                cx.out.line(&format!("C18 wfail {} {} {} {} {:x}", if zero { "z" } else { "e" }, cstr(c), e.ty, sv, kk), &(ops.wfail)(v, c, kk, zero));
+            }
+            if e.zw { continue; }
+            for &kk in &ks {
+                if kk > n { continue; }
+                let chunk = match cx.rng.below(4) { 0 => 1, 1 => 3, 2 => 8, _ => n.max(1) };
+                let vd = if cx.rng.below(4) == 0 { Validate::No } else { Validate::Yes };
+                cx.out.line(&format!("C18 rfail e {} {} {} {} {:x} {:x}", if *valid { "v" } else { "i" }, mode_str(c, vd), e.ty, hexs(&bytes), kk, chunk), &(ops.rfail)(&bytes, c, vd, kk, chunk, false));
+            }
+            for chunk in [1usize, 5] {
+                cx.out.line(&format!("C18 rfail i {} {} {} {} {:x} {:x}", if *valid { "v" } else { "i" }, mode_str(c, Validate::Yes), e.ty, hexs(&bytes), n, chunk), &(ops.rfail)(&bytes, c, Validate::Yes, n, chunk, true));
+            }
+        }
+    }
+    // batch_check: the empty batch, singletons, all values (valid ones first), all values reversed
+    let all: Vec<V> = vals.iter().map(|x| x.0.clone()).collect();
+    let good: Vec<V> = vals.iter().filter(|x| x.1).map(|x| x.0.clone()).collect();
+    let mut batches: Vec<Vec<V>> = vec![vec![], good.clone(), all.iter().rev().cloned().collect()];
+    for (v, valid) in vals.iter() { if !*valid { batches.push(vec![v.clone()]); let mut b = good.clone(); b.push(v.clone()); batches.push(b); } }
+    if let Some(v) = good.get(1) { batches.push(vec![v.clone(), v.clone()]); }
+    for b in batches {
+        cx.out.line(&format!("C18 bchk {} {}", e.ty, showv(&V::Seq(b.clone()))), &(ops.bchk)(&b));
+    }
+}
+
+/// `serialize_to_vec!` on the components of tuples of mode-sensitive leaves
+fn tovec_lines(cx: &mut Ctx) {
+    let mut g = Gen { rng: Rng::new(0x70ec), invalid_ok: false, top: None };
+    fn res(r: Result<Vec<u8>, SerializationError>) -> String { match r { Ok(b) => hexs(&b), Err(e) => err_class(&e).into() } }
+    for _ in 0..(if cx.thorough { 40 } else { 8 }) {
+        let v = <(Ml,)>::gen(&mut g, 1); let t = <(Ml,)>::build(&v);
+        cx.out.line(&format!("C18 tovec {} {}", <(Ml,)>::ty(), showv(&v)), &guarded(|| res(serialize_to_vec![t.0])));
+        let v = <(Ml, u8, Ml)>::gen(&mut g, 1); let t = <(Ml, u8, Ml)>::build(&v);
+        cx.out.line(&format!("C18 tovec {} {}", <(Ml, u8, Ml)>::ty(), showv(&v)), &guarded(|| res(serialize_to_vec![t.0, t.1, t.2])));
+        let v = <(u16, Vec<Ml>, bool, Option<Ml>)>::gen(&mut g, 1); let t = <(u16, Vec<Ml>, bool, Option<Ml>)>::build(&v);
+        cx.out.line(&format!("C18 tovec {} {}", <(u16, Vec<Ml>, bool, Option<Ml>)>::ty(), showv(&v)), &guarded(|| res(serialize_to_vec![t.0, t.1, t.2, t.3])));
+        let v = <(u8, String)>::gen(&mut g, 1); let t = <(u8, String)>::build(&v);
+        cx.out.line(&format!("C18 tovec {} {}", <(u8, String)>::ty(), showv(&v)), &guarded(|| res(serialize_to_vec![t.0, t.1])));
+    }
+}
+fn bbs_lines(cx: &mut Ctx) {
+    let mut bits: Vec<usize> = (0..=130).collect();
+    bits.extend_from_slice(&[255, 256, 257, 381, 383, 384, 385, 753, 760, 761, 1 << 16, (1 << 32) - 1, 1 << 32, (1 << 32) + 1, (1 << 60) - 7, 1 << 60]);
+    for b in bits {
+        let (x, y) = buffer_bit_byte_size(b);
+        cx.out.line(&format!("C18 bbs {:x}", b), &format!("{:x} {:x} {:x}", x, y, buffer_byte_size(b)));
+    }
+}
+
 fn main() {
     if std::env::args().nth(1).as_deref() == Some("__child") { child_main(); return; }
     let a = arkharness::args();
@@ -845,24 +1520,52 @@ fn main() {
     let mut out = Out::new();
     let mut run = Runner::new();
     let mut cx = Ctx { out: &mut out, run: &mut run, rng: Rng::new(a.seed ^ 0xC18), thorough: a.thorough, in_child: 0 };
-    if a.only.as_deref() != Some("gen") { fixed_streams(&mut cx, &reg); }
+    // sub-streams: `gen` = without the fixed corpus; `old` = the (de)serialisation streams only; `new` = the further entry points only
+    let only = a.only.as_deref();
+    let do_main = only != Some("new");
+    let do_new = only != Some("old") && only != Some("gen");
+    if only.is_none() || only == Some("old") { fixed_streams(&mut cx, &reg); }
     let nvals = if a.thorough { 12 } else { 5 };
-    for (idx, e) in reg.iter().enumerate() {
+    let values = |idx: usize, e: &Entry| -> Vec<(V, bool)> {
         let mut g = Gen { rng: Rng::new(a.seed.wrapping_mul(1000003).wrapping_add(idx as u64)), invalid_ok: false, top: None };
+        let mut vs = Vec::new();
         for k in 0..nvals {
+            // ark-poly types in the quick tier: the empty / singleton shape, one large and one random value
+            if e.poly && !a.thorough && k == 4 { continue; }
+            if e.light && !a.thorough && !(k == 1 || k == 3) { continue; }
             g.top = match k { 0 => Some(0), 1 => Some(1), 2 => Some(e.big), _ => None };
             g.invalid_ok = false;
             let v = gen_for(e, &mut g);
-            streams(&mut cx, idx, e, &v, true);
+            // ark-poly types: the value as the constructor leaves it
+            let v = if e.poly { (e.ops.unwrap().norm)(&v) } else { v };
+            vs.push((v, true));
         }
-        if e.ty.contains("ml") {
+        if !e.poly && e.ty.contains("ml") {
             for _ in 0..(if a.thorough { 4 } else { 2 }) {
                 g.top = None;
                 g.invalid_ok = true;
                 let v = gen_for(e, &mut g);
                 let valid = !showv(&v).split(|ch: char| !ch.is_ascii_hexdigit()).any(|t| t == "ee");
+                vs.push((v, valid));
+            }
+        }
+        vs
+    };
+    if do_main {
+        for (idx, e) in reg.iter().enumerate() {
+            for (j, (v, valid)) in values(idx, e).into_iter().enumerate() {
+                if e.light && !a.thorough && j > 0 { continue; }
                 streams(&mut cx, idx, e, &v, valid);
             }
+        }
+    }
+    if do_new {
+        illformed_streams(&mut cx, &reg);
+        tovec_lines(&mut cx);
+        bbs_lines(&mut cx);
+        for (idx, e) in reg.iter().enumerate() {
+            let vs = values(idx, e);
+            extra_streams(&mut cx, e, &vs);
         }
     }
     let in_child = cx.in_child;
